@@ -264,12 +264,113 @@ def check_case(case) -> Outcome:
     return Outcome(nontrivial=fused, labels=tuple(labels), failures=tuple(fails))
 
 
+# ------------------------------------------------------------------------------------------------ side inputs
+def side_cases():
+    from hypothesis import strategies as st
+
+    @st.composite
+    def cases(draw):
+        nd = draw(st.sampled_from([1, 2, 2]))
+        shape = [draw(st.integers(2, 7)) for _ in range(nd)]
+        chunks = [draw(st.integers(1, n)) for n in shape]
+        return {"kind": "side-input", "shape": shape, "chunks": chunks, "depth": draw(st.integers(0, 3)), "consumer": draw(st.sampled_from(["negative", "add-input", "sum", "none"])),
+                "optimizer": draw(st.sampled_from(["default", "default", "fuse-all", "simple", "multiple-inputs"])), "perm_seed": draw(st.integers(0, 10**6)),
+                "request_side": draw(st.booleans())}
+
+    return cases()
+
+
+def _side_build(case, spec):
+    """d = consumer(map_blocks(f, a, extra_source_arrays=[y])) where f reads the matching region of y straight from y's storage (a side
+    input declared with the extra_source_arrays option of blockwise/map_blocks) and y is computed `depth` operations deep in the
+    same plan.  -> (requested arrays, expected NumPy values)"""
+    import cubed
+    import cubed.array_api as xp
+
+    from cubed.storage.zarr import open_if_lazy_zarr_array
+
+    shape, chunks = tuple(case["shape"]), tuple(case["chunks"])
+    an = (np.arange(int(np.prod(shape)), dtype=np.float64).reshape(shape) % 7) + 1
+    bn = (np.arange(int(np.prod(shape)), dtype=np.float64).reshape(shape)[::-1] % 5) * 10 + 1
+    a = xp.asarray(an, chunks=chunks, spec=spec)
+    b = xp.asarray(bn, chunks=chunks, spec=spec)
+    s1, s1n = xp.add(a, b), an + bn
+    d = case["depth"]
+    if d == 0:
+        y, yn = s1, s1n
+    elif d == 1:
+        y, yn = xp.multiply(s1, 2.0), s1n * 2
+    elif d == 2:
+        y, yn = xp.add(xp.multiply(s1, 2.0), xp.multiply(s1, 3.0)), s1n * 5
+    else:
+        y, yn = xp.negative(xp.add(xp.multiply(s1, 2.0), xp.multiply(s1, 3.0))), -(s1n * 5)
+    yz = y._zarray
+
+    def add_side(block, block_id=None):
+        side = open_if_lazy_zarr_array(yz)
+        sel = tuple(slice(c * i, min(c * (i + 1), n)) for c, i, n in zip(chunks, block_id, shape))
+        return block + side[sel]
+
+    p_, pn = cubed.map_blocks(add_side, a, dtype=a.dtype, extra_source_arrays=[y]), an + yn
+    c = case["consumer"]
+    if c == "negative":
+        out, on = xp.negative(p_), -pn
+    elif c == "add-input":
+        out, on = xp.add(p_, b), pn + bn
+    elif c == "sum":
+        out, on = xp.sum(p_, axis=0), pn.sum(axis=0)
+    else:
+        out, on = p_, pn
+    if case["request_side"]:
+        return [out, y], [on, yn]
+    return [out], [on]
+
+
+def check_side_input(case) -> Outcome:
+    import cubed
+    from zarr.storage import MemoryStore
+
+    from vp import harness as H
+
+    labels = {f"side-depth={case['depth']}", f"side-consumer={case['consumer']}", f"optimizer:{case['optimizer']}"}
+    fails = []
+    runs = {}
+    with warnings.catch_warnings():
+        warnings.simplefilter("ignore")
+        for name in ("unoptimized", "optimized"):
+            spec = cubed.Spec(intermediate_store=MemoryStore(), allowed_mem=2_000_000_000, reserved_mem=0)
+            try:
+                outs, exp = _side_build(case, spec)
+                kw = {"optimize_graph": False}
+                if name == "optimized":
+                    kw = {"optimize_graph": True}
+                    if case["optimizer"] != "default":
+                        from cubed.core import optimization as opt
+
+                        kw["optimize_function"] = {"fuse-all": opt.fuse_all_optimize_dag, "simple": opt.simple_optimize_dag, "multiple-inputs": opt.multiple_inputs_optimize_dag}[case["optimizer"]]
+                runs[name] = [np.asarray(r) for r in cubed.compute(*outs, executor=H.ScheduleExecutor(H.Schedule(perm_seed=case.get("perm_seed"))), **kw)]
+            except Exception as e:
+                if name == "unoptimized":
+                    labels.add(f"declined:{type(e).__name__}")
+                    return Outcome(labels=tuple(labels))
+                fails.append(Failure(f"side-input:optimized-run-failed:{case['optimizer']}:{type(e).__name__}", f"{case}: {e!r}"[:300]))
+                return Outcome(nontrivial=True, labels=tuple(labels), failures=tuple(fails))
+    for k, (u, o, e) in enumerate(zip(runs["unoptimized"], runs["optimized"], exp)):
+        if u.shape != e.shape or not np.array_equal(u, e):
+            labels.add("side-input:unoptimized-differs-from-numpy")  # C01's business; no differential verdict
+            return Outcome(labels=tuple(labels))
+        if o.shape != u.shape or not np.array_equal(o, u):
+            fails.append(Failure(f"side-input:optimized-differs:{case['optimizer']}", f"requested array {k} of {case}: optimized run differs from the unoptimized one"))
+            break
+    return Outcome(nontrivial=case["depth"] >= 1, labels=tuple(labels), failures=tuple(fails))
+
+
 def shards(tier):
     if tier == "quick":
         return [{"kind": "program", "name": f"s{i}", "n": 90, "rotate": 7 + i * 43} for i in range(7)] + [
             {"kind": "program", "name": f"store-mid{i}", "n": 90, "rotate": 19 + i * 37, "store_mid": 4} for i in range(2)] + [
-            {"kind": "program", "name": f"chains{i}", "n": 90, "rotate": 5 + i * 53, "chains": True, "min_ops": 3} for i in range(2)]
-    return [{"kind": "program", "name": f"s{i}", "n": 1500, "rotate": 7 + i * 43} for i in range(16)] + [
+            {"kind": "program", "name": f"chains{i}", "n": 90, "rotate": 5 + i * 53, "chains": True, "min_ops": 3} for i in range(2)] + [{"kind": "side-input", "name": "side", "n": 80}]
+    return [{"kind": "side-input", "name": f"side{i}", "n": 1500} for i in range(2)] + [{"kind": "program", "name": f"s{i}", "n": 1500, "rotate": 7 + i * 43} for i in range(16)] + [
         {"kind": "program", "name": f"store-mid{i}", "n": 1500, "rotate": 19 + i * 37, "store_mid": 4} for i in range(4)] + [
         {"kind": "program", "name": f"chains{i}", "n": 1500, "rotate": 5 + i * 53, "chains": True, "min_ops": 3} for i in range(4)]
 
@@ -279,6 +380,10 @@ def run_shard(spec, seed, tier) -> Acc:
     if spec["kind"] == "__corpus__":
         return core.corpus_shard(sys.modules[__name__], acc)
     is_known, _ = core.known_matcher(ID)
+    if spec["kind"] == "side-input":
+        core.hyp_run(side_cases(), check_side_input, seed=seed, max_examples=spec["n"], acc=acc, budget_s=420 if tier == "quick" else 3000,
+                     shrink=(tier == "thorough"), is_known=is_known)
+        return acc
     opts = {"rotate": spec.get("rotate", 0), "store_mid": spec.get("store_mid", 12)}
     if spec.get("chains"):
         # chains of single-input elementwise operations ending in operations that read a stream of blocks (reductions, scans),
@@ -294,4 +399,6 @@ def run_shard(spec, seed, tier) -> Acc:
 
 
 def replay(case):
+    if case.get("kind") == "side-input":
+        return check_side_input(case).all_failures()
     return check_case(case).all_failures()
